@@ -1,9 +1,58 @@
-// Package c08: check for property C08 (stub until implemented).
+// Package c08: rounds, routing and channel discipline follow the protocol; WaitingFor is exact (NETMC).
 package c08
 
-import "verif/internal/core"
+import (
+	"fmt"
+	"math/big"
+	"runtime"
 
-// Implemented reports whether this check is built.
-const Implemented = false
+	"verif/internal/core"
+	"verif/internal/protomc"
+	"verif/internal/scen"
+)
 
-func Run(r *core.Run) { r.Cap("not implemented") }
+const Implemented = true
+
+func Run(r *core.Run) {
+	w := runtime.NumCPU()
+	msg := new(big.Int).SetBytes(core.Bytes("c08-msg", 32))
+	var scs []protomc.Scenario
+	scs = append(scs,
+		scen.EdKeygen("small", 2, 1, r.Seed),
+		scen.EdKeygen("small", 3, 1, r.Seed),
+		scen.EdSigning("small", 3, 1, []int{1, 2}, msg, 0, r.Seed),
+		scen.EdSigning("small", 3, 1, []int{0, 1, 2}, msg, 0, r.Seed),
+		scen.EdResharing(3, 1, []int{0, 2}, 2, 1, r.Seed),
+	)
+	if r.Tier == "thorough" {
+		scs = append(scs,
+			scen.EdKeygen("near-q", 3, 2, r.Seed),
+			scen.EdResharing(3, 1, []int{0, 1, 2}, 2, 1, r.Seed),
+			scen.EdResharing(3, 2, []int{0, 1, 2}, 2, 1, r.Seed),
+		)
+	}
+	var states, trans, traces, probes int
+	for _, sc := range scs {
+		st := protomc.Explore(r, sc, protomc.Options{C08: true, FlipProbes: true, Workers: w, JointValidate: 20})
+		states += st.States
+		trans += st.Transitions
+		traces += st.JointReplays
+		probes += st.FlipProbes
+		if st.Capped {
+			r.Cap("state cap hit in " + sc.Name)
+		}
+		r.Set("cfg:"+sc.Name, map[string]interface{}{"states": st.States, "transitions": st.Transitions, "max_depth": st.MaxDepth,
+			"feasible_local_states": st.LocalStates, "local_transitions_executed": st.LocalTransitions, "flag_flip_probes": st.FlipProbes, "joint_replays": st.JointReplays})
+		for _, s := range st.Samples {
+			r.ForceSample(s)
+		}
+		fmt.Printf("  %-60s states=%d trans=%d local=%d probes=%d joint=%d\n", sc.Name, st.States, st.Transitions, st.LocalStates, st.FlipProbes, st.JointReplays)
+	}
+	r.Set("states", states)
+	r.Set("transitions", trans)
+	r.Set("flag_flip_probes", probes)
+	r.Set("traces_validated_against_impl", traces)
+	r.Assume("reference model of rounds/routing: vmod/internal/model (DESIGN.md Appendix B)")
+	r.Assume("party independence validated by joint replays (traces_validated_against_impl)")
+	r.Assume("WaitingFor is compared only after an accepted Update on a started party (DESIGN §3a)")
+}
